@@ -155,16 +155,66 @@ def _tile_limit_before_load(ex, st, post, result):
            'num_tiles (columns x rows) >= max_tile_limit => the request is refused before any tile is loaded or created')
 
 
-contract('mapproxy.layer:CacheMapLayer._image', props=['C16'],
+def _mosaic_georeference(ex, st, post, result):
+    """C01: the mosaic of the affected tiles is declared with the bbox / tile grid the grid reported for THIS request and is
+    transformed to exactly the requested bbox, SRS and size; a tiled-only request returns the one tile untouched"""
+    import z3
+    from pyvc.values import eq, VSeq
+    q = post.env['query']
+    aff = [e for i, e in T.evs(st, 'get_affected_tiles') if not e.raised]
+    loads = [e for i, e in T.evs(st, 'load_tile_coords')]
+    ti = [e for i, e in T.evs(st, 'TiledImage')]
+    tr = [e for i, e in T.evs(st, 'transform') if not e.raised]
+    be = [e for i, e in T.evs(st, 'bbox_equals')]
+    if not aff or not loads:
+        return
+    src_bbox, tile_grid, coords = aff[0].result.items
+    goal = z3.And(eq(aff[0].args[0], ex.opaque_field_at(st, aff[0], q, 'bbox')), eq(aff[0].args[1], ex.opaque_field_at(st, aff[0], q, 'size')),
+                  z3.BoolVal(aff[0].kwargs.get('req_srs') is not None))
+    tiled = ex.truth(st, ex.opaque_field(st, q, 'tiled_only'))
+    if tr:
+        ok = len(ti) == 1 and len(tr) == 1 and ti[0].kwargs.get('src_bbox') is src_bbox and ti[0].kwargs.get('tile_grid') is tile_grid \
+            and tr[0].recv is not None and tr[0].recv.t.eq(ti[0].result.t) and len(tr[0].args) >= 3
+        goal = z3.And(goal, z3.BoolVal(bool(ok)), z3.Not(tiled))
+        if ok:
+            goal = z3.And(goal, eq(tr[0].args[0], ex.opaque_field_at(st, tr[0], q, 'bbox')),
+                          eq(tr[0].args[2], ex.opaque_field_at(st, tr[0], q, 'size')))
+    elif not ti and loads and not [e for e in st.trace if e.name == 'transform']:
+        # single stored tile handed out unresampled: only in tiled-only mode, for one tile, with the request aligned to it
+        n = tile_grid.items[0].t * tile_grid.items[1].t
+        ok = len(be) == 1 and be[0].args[1] is src_bbox
+        goal = z3.And(goal, tiled, n <= 1, z3.BoolVal(bool(ok)), ex.truth(st, be[0].result) if be else z3.BoolVal(False))
+        if ok:
+            from pyvc.values import to_real
+            qb = ex.opaque_field_at(st, be[0], q, 'bbox')
+            qs = ex.opaque_field_at(st, be[0], q, 'size')
+            b = [to_real(x) for x in qb.items]
+
+            def zabs(t):
+                return z3.If(t >= 0, t, -t)
+            goal = z3.And(goal, eq(be[0].args[0], qb), z3.BoolVal(len(be[0].args) == 4))
+            if len(be[0].args) == 4:
+                # alignment tolerance: a tenth of an output pixel, per axis
+                goal = z3.And(goal, z3.Implies(z3.And(to_real(qs.items[0]) != 0, to_real(qs.items[1]) != 0), z3.And(
+                    to_real(be[0].args[2]) == zabs((b[2] - b[0]) / to_real(qs.items[0]) / 10),
+                    to_real(be[0].args[3]) == zabs((b[3] - b[1]) / to_real(qs.items[1]) / 10))))
+    yield ('mosaic_is_georeferenced_and_transformed_to_the_request', goal,
+           'get_affected_tiles(query.bbox, query.size, req_srs=query.srs) -> TiledImage(sources, src_bbox, tile_grid of that answer) '
+           '-> transform(query.bbox, query.srs, query.size); the untransformed shortcut only for tiled-only requests of one tile '
+           'whose bbox equals the tile bbox')
+
+
+contract('mapproxy.layer:CacheMapLayer._image', props=['C16', 'C01'],
          types=dict(query='opaque'), returns='opaque', default_callee='opaque',
          opaque_fields={'bbox': 'tuple[real,real,real,real]', 'size': 'tuple[int,int]', 'tiled_only': 'bool'},
          stable_fields=['bbox', 'size', 'tiled_only'],
          opaque_spec={'get_affected_tiles': {'returns': 'tuple[tuple[real,real,real,real],tuple[int,int],opaque]',
                                              'raises': ['NoTiles', 'GridError'], 'pure': True},
-                      'session': {'pure': True}, 'bbox_equals': {'returns': 'bool', 'pure': True},
+                      'session': {'pure': True}, 'bbox_equals': {'returns': 'bool', 'pure': True}, 'TiledImage': {'pure': True},
                       'transform': {'raises': ['ProjError', 'IOError']}},
+         opaque=['bbox_equals', 'TiledImage'],
          raises={'BlankImage': True, 'MapBBOXError': True, 'SourceError': True, 'Exception': True},
-         trace=[_tile_limit_before_load])
+         trace=[_tile_limit_before_load, _mosaic_georeference])
 
 cls('mapproxy.service.wms:WMSServer', fields=dict(max_output_pixels='opt[int]', layers='opaque', image_formats='opaque',
                                                   srs='opaque', md='opaque', max_tile_age='opaque', root_layer='opaque',
